@@ -9,6 +9,7 @@ pub mod compaction;
 pub mod damage;
 pub mod dump;
 pub mod engine;
+pub mod levels;
 pub mod oracle;
 pub mod pipefail;
 pub mod table;
